@@ -146,6 +146,8 @@ class Run:
         self.rule = ""
         self.min_held = 1
         self.max_violation_lines = 25
+        self.known_site_hits = {}
+        self._sites = None
         self.rng = random.Random((seed * 1000003) ^ int(sha(prop)[:8], 16))
         os.makedirs(os.path.join(REPLAY, prop), exist_ok=True)
 
@@ -172,7 +174,23 @@ class Run:
         else:
             if key is not None and nontrivial:
                 self.distinct.add(key)
-            self.violation(case, verdict)
+            f = self._known_site(verdict.signature)
+            if f is not None:
+                # a recorded finding identified by its call site (exact failure signature of that site)
+                self.known_site_hits[f["id"]] = self.known_site_hits.get(f["id"], 0) + 1
+                if self.known_site_hits[f["id"]] == 1:
+                    self.known("%s: %s [site signature: %s]" % (f["id"], f.get("what", ""), f["site_signature"]))
+            else:
+                self.violation(case, verdict)
+
+    def _known_site(self, signature):
+        import re
+        if self._sites is None:
+            self._sites = [f for f in load_known(self.prop) if f.get("status", "open") == "open" and f.get("site_signature")]
+        for f in self._sites:
+            if re.fullmatch(f["site_signature"], signature or ""):
+                return f
+        return None
 
     def violation(self, case, verdict):
         n = len(self.violations)
@@ -247,6 +265,7 @@ class Run:
             "inconclusive_reasons": self.inconclusive_reasons,
             "features": dict(sorted(self.features.items())),
             "known_finding_lines": self.known_lines,
+            "known_site_hits": self.known_site_hits,
             "notes": self.notes,
             "violation_signatures": [v["signature"] for v in self.violations[:20]],
         }
